@@ -1,6 +1,8 @@
 import OpcuaModel.Model.Subs
 import OpcuaModel.Model.SubsLemmas
 import OpcuaModel.Gen.SubsFacts
+import OpcuaModel.Model.Republish
+import OpcuaModel.Model.RepublishLemmas
 /-
   C26 — subscriptions survive reconnects and notifications are acknowledged once.
 
@@ -172,6 +174,92 @@ theorem C26_transfer_covers (m m' : Mon) (ids : List Nat) (r : Transfer)
     (m'.toRepublish ++ m'.toRecreate).Perm ids ∧ ids.length = m.subs.length ∧
     (∀ s ∈ m.subs, s.id ∈ ids) :=
   transfer_covers hr hs
+
+/-! ### (c) transfer + republish
+
+  `Rep.loop` mirrors `sendRepublishRequests`; `Rep.honest q` is a server that answers from
+  its retransmission queue `q` (the sequence numbers it sent and that were not
+  acknowledged); `avail` is the AvailableSequenceNumbers list of the transfer result. -/
+
+/-- Nothing is skipped: if the queue holds a gap-free run from the client's `nextSeq` on
+    (everything sent after the last message the client received is still there), the loop
+    ends normally and hands every held notification from `nextSeq` on to the application. -/
+theorem C26_republish_nothing_skipped (q avail : List Nat) (ha : avail = [] ∨ ∀ x, x ∈ avail ↔ x ∈ q)
+    (n fuel : Nat) (hf : (q.filter (fun x => decide (n ≤ x))).length < fuel) (hc : Rep.contiguousFrom q n) :
+    (Rep.republish avail (Rep.honest q) fuel n).outcome = .done ∧
+    ∀ s ∈ q, n ≤ s → s ∈ (Rep.republish avail (Rep.honest q) fuel n).delivered := by
+  have hd := Rep.loop_terminates q avail fuel n [] [] hf
+  obtain ⟨h1, _, h3, _, h5⟩ := Rep.loop_honest q avail ha fuel n [] []
+  refine ⟨hd, ?_⟩
+  intro s hs hns
+  refine (h1 s).mpr (Or.inr ⟨hns, ?_⟩)
+  by_cases hlt : s < (Rep.loop avail (Rep.honest q) fuel n [] []).nextSeq
+  · exact hlt
+  · exact absurd (hc s hs hns _ h3 (by omega)) (h5 hd)
+
+/-- Nothing twice, nothing old: the delivered sequence numbers are strictly increasing,
+    all are in the server's queue and none is below `nextSeq` (what the client had received
+    before the connection loss is not delivered again). -/
+theorem C26_republish_no_duplicates (q avail : List Nat) (ha : avail = [] ∨ ∀ x, x ∈ avail ↔ x ∈ q)
+    (n fuel : Nat) :
+    (Rep.republish avail (Rep.honest q) fuel n).delivered.Pairwise (· < ·) ∧
+    ∀ s ∈ (Rep.republish avail (Rep.honest q) fuel n).delivered, n ≤ s ∧ s ∈ q := by
+  refine ⟨Rep.loop_sorted q avail fuel n [] [] List.Pairwise.nil (by simp), ?_⟩
+  obtain ⟨h1, h2, _, _, _⟩ := Rep.loop_honest q avail ha fuel n [] []
+  intro s hs
+  rcases (h1 s).mp hs with h | ⟨h, h'⟩
+  · simp at h
+  · exact ⟨h, h2 s h h'⟩
+
+/-- after the loop the subscription expects the first sequence number the server does not hold -/
+theorem C26_republish_next (q avail : List Nat) (ha : avail = [] ∨ ∀ x, x ∈ avail ↔ x ∈ q)
+    (n fuel : Nat) (hf : (q.filter (fun x => decide (n ≤ x))).length < fuel) :
+    (Rep.republish avail (Rep.honest q) fuel n).nextSeq ∉ q ∧
+    n ≤ (Rep.republish avail (Rep.honest q) fuel n).nextSeq := by
+  obtain ⟨_, _, h3, _, h5⟩ := Rep.loop_honest q avail ha fuel n [] []
+  exact ⟨h5 (Rep.loop_terminates q avail fuel n [] [] hf), h3⟩
+
+/-- FINDING (C26.republish-gives-up-at-gap).  The guard `contiguousFrom` is needed: when the
+    message the client expects next (2) has left the server's queue but later ones (3) are
+    still held, the first RepublishRequest is answered BadMessageNotAvailable and the loop
+    returns: the held notification is never delivered. -/
+theorem C26_finding_republish_gap :
+    Rep.republish [3] (Rep.honest [3]) 10 2 = ⟨[], [2], 2, .done⟩ ∧ ¬ Rep.contiguousFrom [3] 2 := by
+  refine ⟨by decide, ?_⟩
+  intro h
+  have := h 3 (by simp) (by omega) 2 (by omega) (by omega)
+  simp at this
+
+/-- FINDING (C26.republished-never-acknowledged).  The loop hands the republished messages to
+    the application but never queues an acknowledgement: the next PublishRequest carries
+    exactly the acknowledgements it would have carried without the republish. -/
+theorem C26_finding_republished_not_acked (c : Client) (id : Nat) (r : Rep.Result) :
+    requestAcks (Rep.intoClient c id r) = requestAcks c := by
+  unfold Rep.intoClient
+  split
+  · split <;> rfl
+  · rfl
+
+/-- … so after republishing 1/2 and 1/3 no acknowledgement at all — in particular none for
+    them — is in any later request, however the history continues, unless the message is
+    received (again) through Publish -/
+theorem C26_finding_republished_never_acked (es : List PubEvent) (a : Ack)
+    (hlater : ∀ c' e', (c', e') ∈
+        statesOf (Rep.intoClient ⟨[], [⟨1, 1, 2⟩]⟩ 1 (Rep.republish [2, 3] (Rep.honest [2, 3]) 10 2)) es →
+      received c' e' ≠ some a) :
+    ∀ r ∈ requests (Rep.intoClient ⟨[], [⟨1, 1, 2⟩]⟩ 1 (Rep.republish [2, 3] (Rep.honest [2, 3]) 10 2)) es, a ∉ r :=
+  absent_stays_absent es _ (by rw [show (Rep.intoClient ⟨[], [⟨1, 1, 2⟩]⟩ 1
+      (Rep.republish [2, 3] (Rep.honest [2, 3]) 10 2)).pending = [] from by decide]; simp) hlater
+
+/-- which loop outcomes make `monitor` fall back to recreating the subscription:
+    BadSessionIDInvalid is swallowed by `republishSubscription`, every other error recreates -/
+theorem C26_republish_fallback :
+    Rep.republishOk .done = true ∧ Rep.republishOk .failSession = true ∧
+    Rep.republishOk .failSub = false ∧ Rep.republishOk .failOther = false := by decide
+
+/-- non-vacuity: two lost messages are republished with two requests (the transfer result
+    says 4 is not available, so no third request is sent) -/
+example : Rep.republish [2, 3] (Rep.honest [2, 3]) 10 2 = ⟨[2, 3], [2, 3], 4, .done⟩ := by decide
 
 /-- non-vacuity: the good recreate path (server restart, one subscription) -/
 example :
